@@ -146,7 +146,7 @@ fn main() {
             }
         }
     }
-    writeln!(f, "{}", json!({"ev":"msg","run":-1,"s":0,"d":"req","ns":0,"nr":0,"companion_aborted":false})).unwrap();
+    writeln!(f, "{}", json!({"ev":"msg","run":-1,"s":0,"d":"req","ns":0,"nr":0,"companion_aborted":false,"park_hol":false,"budget_kill":false,"pair":""})).unwrap();
     n_events += 1;
     f.flush().unwrap();
     vh::h2kit::emit_out(&json!({"kind":"summary","runs":n_runs,"messages":n_msgs,"events":n_events,"bytes":bytes_total,"by_kind":by_kind,
